@@ -188,6 +188,162 @@ example : EvalsBody {} 0 ([.prim (.int 1) none] ++ [.call (.prim (.int 2) none) 
     (.ok (.tailCall (.prim (.int 2) none) [] 0)) {} :=
   tail_body_last_judgement (.cons (Evals.prim rfl) .nil) EvalsTail.call
 
+/-! ## 4. the derived forms keep their tail sub-form in tail position
+
+These theorems are ABOUT THE GENERATED CONSTANT `Gen.grammarData` (regenerated from
+`/repo/src/parser/grammar.sld` on every run; through the shape theorems of `C05Shapes.lean`): an edit
+of `grammar.sld` that moves a tail sub-form out of tail position re-opens them.
+
+`DTail sub d` — the datum `sub` is in tail position of the datum `d` as the parser will transform it:
+`d` itself; an arm of `(if t c)` / `(if t c a)`; the last body form of a `(lambda …)` in operator
+position; and through one expansion step (`expand1`, the bundled rules applied to what follows the
+keyword, located at the form — what `transform_to_statement` does) of a bundled derived form.
+`IsList d xs`: `d` is the proper list of `xs`. A form is `(kw . rest)` = `.pair (.sym kw l₁) rest l`.
+`dtail_intail` (below) carries `DTail` over to `InTail` on the transformed expressions. -/
+
+open Ruschm.Macro in
+/-- `(begin form… last)`: `last` — the expansion is `((lambda () form… last))` -/
+theorem tail_position_begin {sub l₁ rest l pre last} (hu : IsList rest (pre ++ [last])) (h : DTail sub last) :
+    DTail sub (.pair (.sym "begin" l₁) rest l) :=
+  dtail_begin hu h
+
+open Ruschm.Macro in
+/-- `(let ((name val) …) form… last)`, bindings possibly empty: `last` — the expansion is
+`((lambda (name …) form… last) val …)` -/
+theorem tail_position_let {sub l₁ rest l bs bds nvs pre last} (hu : IsList rest (bs :: (pre ++ [last])))
+    (hbs : IsList bs bds) (hp : IsPairs bds nvs) (h : DTail sub last) :
+    DTail sub (.pair (.sym "let" l₁) rest l) :=
+  dtail_let hu hbs hp h
+
+open Ruschm.Macro in
+/-- `(let* ((name val) …) form… last)`, any number of bindings: `last` — nested `let`s -/
+theorem tail_position_letstar {sub l₁ rest l bs bds nvs pre last} (hu : IsList rest (bs :: (pre ++ [last])))
+    (hbs : IsList bs bds) (hp : IsPairs bds nvs) (h : DTail sub last) :
+    DTail sub (.pair (.sym "let*" l₁) rest l) :=
+  dtail_letstar h nvs hu hbs hp
+
+open Ruschm.Macro in
+/-- `(when test form… last)` and `(unless test form… last)`: `last` — `(if test (begin form… last))` -/
+theorem tail_position_when_unless {sub l₁ rest l test pre last} (hu : IsList rest (test :: (pre ++ [last])))
+    (h : DTail sub last) :
+    DTail sub (.pair (.sym "when" l₁) rest l) ∧ DTail sub (.pair (.sym "unless" l₁) rest l) :=
+  ⟨dtail_when hu h, dtail_unless hu h⟩
+
+open Ruschm.Macro in
+/-- `(and test… last)` and `(or test… last)`, any number of tests: `last` — nested `if`s (for `or`:
+inside `((lambda (x) (if x x □)) test)`) -/
+theorem tail_position_and_or {sub l₁ rest l pre last} (hu : IsList rest (pre ++ [last])) (h : DTail sub last) :
+    DTail sub (.pair (.sym "and" l₁) rest l) ∧ DTail sub (.pair (.sym "or" l₁) rest l) :=
+  ⟨dtail_and h pre hu, dtail_or h pre hu⟩
+
+open Ruschm.Macro Ruschm.C05 in
+/-- `cond`, the LAST clause: `(else form… last)` and `(test form… last)`: `last`; `(test => receiver)`:
+the call `(receiver temp)`; `(test)`: the test. (Side conditions: those of the rule order, see
+`C05Shapes.lean`.) -/
+theorem tail_position_cond_last {sub l₁ rest l c} (hu : IsList rest [c]) :
+    (∀ e pre last, IsList c (e :: (pre ++ [last])) → isSym "else" e = true → DTail sub last →
+      DTail sub (.pair (.sym "cond" l₁) rest l)) ∧
+    (∀ test pre last, IsList c (test :: (pre ++ [last])) → isSym "else" test = false →
+      (∀ a r, pre ++ [last] = [a, r] → isSym "=>" a = false) → DTail sub last →
+      DTail sub (.pair (.sym "cond" l₁) rest l)) ∧
+    (∀ test a r, IsList c [test, a, r] → isSym "=>" a = true → isSym "else" test = false →
+      DTail (L l [r, S l "temp"]) (.pair (.sym "cond" l₁) rest l)) ∧
+    (∀ test, IsList c [test] → DTail sub test → DTail sub (.pair (.sym "cond" l₁) rest l)) :=
+  ⟨fun _ _ _ hc he h => dtail_cond_else hu hc he h,
+   fun _ _ _ hc hte hna h => dtail_cond_clause_sole hu hc hte hna h,
+   fun _ _ _ hc ha hte => dtail_cond_arrow_sole hu hc ha hte,
+   fun _ hc h => dtail_cond_test_sole hu hc h⟩
+
+open Ruschm.Macro Ruschm.C05 in
+/-- `cond`, a clause that is NOT the last: its tail sub-form (the last form of `(test form… last)`,
+the call `(receiver temp)` of `(test => receiver)`) is in tail position, and so is everything in tail
+position of `(cond clause…)` on the remaining clauses -/
+theorem tail_position_cond_more {sub l₁ rest l c clauses} (hu : IsList rest (c :: clauses)) (hcl : clauses ≠ []) :
+    (∀ test pre last, IsList c (test :: (pre ++ [last])) →
+      (∀ a r, pre ++ [last] = [a, r] → isSym "=>" a = false) →
+      (DTail sub last → DTail sub (.pair (.sym "cond" l₁) rest l)) ∧
+      (DTail sub (.pair (.sym "cond" l) (Datum.ofList none clauses) l) → DTail sub (.pair (.sym "cond" l₁) rest l))) ∧
+    (∀ test a r, IsList c [test, a, r] → isSym "=>" a = true →
+      DTail (L l [r, S l "temp"]) (.pair (.sym "cond" l₁) rest l) ∧
+      (DTail sub (.pair (.sym "cond" l) (Datum.ofList none clauses) l) → DTail sub (.pair (.sym "cond" l₁) rest l))) ∧
+    (∀ test, IsList c [test] →
+      (DTail sub (.pair (.sym "cond" l) (Datum.ofList none clauses) l) → DTail sub (.pair (.sym "cond" l₁) rest l))) :=
+  ⟨fun _ _ _ hc hna => dtail_cond_clause_more hu hc hcl hna,
+   fun _ _ _ hc ha => dtail_cond_arrow_more hu hc ha hcl,
+   fun _ hc h => dtail_cond_test_more hu hc hcl h⟩
+
+open Ruschm.Macro Ruschm.C05 in
+/-- `case` with an atomic key, the LAST clause: `(else form… last)` and `((atom…) form… last)`: `last`;
+`(else => receiver)` and `((atom…) => receiver)`: the call `(receiver key)` -/
+theorem tail_position_case_last {sub l₁ rest l key c} (hu : IsList rest [key, c])
+    (hk : ∀ ks, IsList key ks → ks = []) :
+    (∀ e pre last, IsList c (e :: (pre ++ [last])) → isSym "else" e = true →
+      (∀ a r, pre ++ [last] = [a, r] → isSym "=>" a = false) → DTail sub last →
+      DTail sub (.pair (.sym "case" l₁) rest l)) ∧
+    (∀ e a r, IsList c [e, a, r] → isSym "else" e = true → isSym "=>" a = true →
+      DTail (L l [r, key]) (.pair (.sym "case" l₁) rest l)) ∧
+    (∀ as atoms pre last, IsList c (as :: (pre ++ [last])) → IsList as atoms → atoms ≠ [] →
+      (∀ a r, pre ++ [last] = [a, r] → isSym "=>" a = false) → DTail sub last →
+      DTail sub (.pair (.sym "case" l₁) rest l)) ∧
+    (∀ as atoms a r, IsList c [as, a, r] → IsList as atoms → atoms ≠ [] → isSym "=>" a = true →
+      DTail (L l [r, key]) (.pair (.sym "case" l₁) rest l)) :=
+  ⟨fun _ _ _ hc he hna h => dtail_case_else hu hc he hna hk h,
+   fun _ _ _ hc he ha => dtail_case_else_arrow hu hc he ha hk,
+   fun _ _ _ _ hc has hne hna h => dtail_case_clause_sole hu hc has hne hna hk h,
+   fun _ _ _ _ hc has hne ha => dtail_case_arrow_sole hu hc has hne ha hk⟩
+
+open Ruschm.Macro Ruschm.C05 in
+/-- `case`, a clause that is NOT the last (atomic key), and a key that is a list (bound first to
+`atom-key`): the clause's tail sub-form, and everything in tail position of the `case` on the
+remaining clauses -/
+theorem tail_position_case_more {sub l₁ rest l} :
+    (∀ key c clauses, IsList rest (key :: c :: clauses) → clauses ≠ [] → (∀ ks, IsList key ks → ks = []) →
+      (∀ as atoms pre last, IsList c (as :: (pre ++ [last])) → IsList as atoms → atoms ≠ [] →
+        (∀ a r, pre ++ [last] = [a, r] → isSym "=>" a = false) →
+        (DTail sub last → DTail sub (.pair (.sym "case" l₁) rest l)) ∧
+        (DTail sub (.pair (.sym "case" l) (Datum.ofList none (key :: clauses)) l) →
+          DTail sub (.pair (.sym "case" l₁) rest l))) ∧
+      (∀ as atoms a r, IsList c [as, a, r] → IsList as atoms → atoms ≠ [] → isSym "=>" a = true →
+        DTail (L l [r, key]) (.pair (.sym "case" l₁) rest l) ∧
+        (DTail sub (.pair (.sym "case" l) (Datum.ofList none (key :: clauses)) l) →
+          DTail sub (.pair (.sym "case" l₁) rest l)))) ∧
+    (∀ k keys clauses, IsList rest (k :: clauses) → IsList k keys → keys ≠ [] → clauses ≠ [] →
+      DTail sub (.pair (.sym "case" l) (Datum.ofList none (S l "atom-key" :: clauses)) l) →
+      DTail sub (.pair (.sym "case" l₁) rest l)) :=
+  ⟨fun _ _ _ hu hcl hk =>
+    ⟨fun _ _ _ _ hc has hne hna => dtail_case_clause_more hu hc has hne hcl hna hk,
+     fun _ _ _ _ hc has hne ha => dtail_case_arrow_more hu hc has hne ha hcl hk⟩,
+   fun _ _ _ hu hk hkn hcl h => dtail_case_list_key hu hk hkn hcl h⟩
+
+open Ruschm.Macro Ruschm.Macro.Ex in
+/-- examples: `(when t 1 (f))`, `(let* ((a 1) (b 2)) (f))`, `(or 1 2 (f))`,
+`(cond (t 1) (else 2 (f)))`: the call `(f)` is in tail position -/
+example : DTail (lst [sy "f"]) (lst [sy "when", sy "t", num 1, lst [sy "f"]]) :=
+  (tail_position_when_unless (l₁ := none) (l := none) (rest := lst [sy "t", num 1, lst [sy "f"]]) (test := sy "t")
+    (pre := [num 1]) (last := lst [sy "f"]) rfl (.here _)).1
+
+open Ruschm.Macro Ruschm.Macro.Ex in
+example : DTail (lst [sy "f"]) (lst [sy "let*", lst [lst [sy "a", num 1], lst [sy "b", num 2]], lst [sy "f"]]) :=
+  tail_position_letstar (l₁ := none) (l := none)
+    (rest := lst [lst [lst [sy "a", num 1], lst [sy "b", num 2]], lst [sy "f"]])
+    (bs := lst [lst [sy "a", num 1], lst [sy "b", num 2]]) (pre := []) (last := lst [sy "f"])
+    (bds := [lst [sy "a", num 1], lst [sy "b", num 2]])
+    (nvs := [(sy "a", num 1), (sy "b", num 2)]) rfl rfl (.cons rfl (.cons rfl .nil)) (.here _)
+
+open Ruschm.Macro Ruschm.Macro.Ex in
+example : DTail (lst [sy "f"]) (lst [sy "or", num 1, num 2, lst [sy "f"]]) :=
+  (tail_position_and_or (l₁ := none) (l := none) (rest := lst [num 1, num 2, lst [sy "f"]])
+    (pre := [num 1, num 2]) (last := lst [sy "f"]) rfl (.here _)).2
+
+open Ruschm.Macro Ruschm.Macro.Ex in
+example : DTail (lst [sy "f"]) (lst [sy "cond", lst [sy "t", num 1], lst [sy "else", num 2, lst [sy "f"]]]) :=
+  ((tail_position_cond_more (l₁ := none) (l := none)
+      (rest := lst [lst [sy "t", num 1], lst [sy "else", num 2, lst [sy "f"]]])
+      (c := lst [sy "t", num 1]) (clauses := [lst [sy "else", num 2, lst [sy "f"]]]) rfl
+      (by simp)).1 (sy "t") [] (num 1) rfl (by simp)).2
+    ((tail_position_cond_last (l₁ := none) (l := none) (rest := lst [lst [sy "else", num 2, lst [sy "f"]]])
+      (c := lst [sy "else", num 2, lst [sy "f"]]) rfl).1 (sy "else") [num 2] (lst [sy "f"]) rfl rfl (.here _))
+
 /-! ## 5. the general principle: a call in tail position is a pending call of the same loop
 
 `InTail sub e` — `sub` is `e`, or in an arm of a tail `if`, or the last body expression of a `lambda`
